@@ -26,6 +26,7 @@ import (
 	"verif/blockkit"
 	"verif/evid"
 	"verif/hx"
+	"verif/par"
 )
 
 // ---- independent reference ---------------------------------------------------------------------
@@ -210,13 +211,14 @@ func (c cfg) class() string {
 }
 
 type artefact struct {
-	Cfg     cfg    `json:"filter"`
-	Step    string `json:"step"`
-	Subset  int    `json:"subset"`
-	Item    string `json:"item,omitempty"`
-	Tx      int    `json:"tx,omitempty"`
-	Watched string `json:"watched,omitempty"`
-	Payload string `json:"filterload_payload,omitempty"`
+	Cfg      cfg    `json:"filter"`
+	Step     string `json:"step"`
+	Subset   int    `json:"subset"`
+	Item     string `json:"item,omitempty"`
+	Tx       int    `json:"tx,omitempty"`
+	Watched  string `json:"watched,omitempty"`
+	Payload  string `json:"filterload_payload,omitempty"`
+	Sequence string `json:"sequence,omitempty"`
 }
 
 type checker struct {
@@ -227,7 +229,29 @@ type checker struct {
 	panics    map[string]int64
 	notLoad   int64
 	sideSkips int64
+	pend      []pendingV
+	nCases    int64
 }
+
+type pendingV struct {
+	sig, what string
+	art       interface{}
+}
+
+// violate queues a violation; the parent reports them in configuration order so the first
+// artefact per signature does not depend on scheduling.
+func (k *checker) violate(sig, what string, art interface{}) {
+	k.pend = append(k.pend, pendingV{sig, what, art})
+}
+
+func (k *checker) flush() {
+	for _, p := range k.pend {
+		k.r.Violate(p.sig, p.what, p.art)
+	}
+	k.pend = nil
+}
+
+func commonU256(h [32]byte) common.Uint256 { return common.Uint256(h) }
 
 // guarded runs f; a panic yields its site.
 func guarded(f func()) (site string) {
@@ -246,7 +270,7 @@ func guarded(f func()) (site string) {
 func (k *checker) panicked(site, step string, a artefact) {
 	a.Step = step
 	k.panics[site]++
-	k.r.Violate("C39|panic|"+site+"|"+a.Cfg.class(), "a filter that "+originWords(a.Cfg)+" panics in "+step+": "+a.Cfg.String(), a)
+	k.violate("C39|panic|"+site+"|"+a.Cfg.class(), "a filter that "+originWords(a.Cfg)+" panics in "+step+": "+a.Cfg.String(), a)
 }
 
 func originWords(c cfg) string {
@@ -286,7 +310,7 @@ func (k *checker) instantiate(c cfg, bits []byte) (direct *bloom.Filter, server 
 	server, err = serverLoad(payload)
 	if err != nil {
 		if c.Origin == "new" {
-			k.r.Violate("C39|newfilter-not-loadable", "a filter built by bloom.NewFilter is refused by the node's own filterload path: "+err.Error(), artefact{Cfg: c, Step: "load", Payload: hex.EncodeToString(payload)})
+			k.violate("C39|newfilter-not-loadable", "a filter built by bloom.NewFilter is refused by the node's own filterload path: "+err.Error(), artefact{Cfg: c, Step: "load", Payload: hex.EncodeToString(payload)})
 		}
 		return nil, nil, payload, false
 	}
@@ -321,7 +345,7 @@ func (k *checker) subsets(c cfg) {
 			}
 			if site := guarded(func() {
 				if err := server.Add(it.Data); err != nil {
-					k.r.Violate("C39|server-add-error", "filter.Filter.Add fails on a loaded filter: "+err.Error(), art)
+					k.violate("C39|server-add-error", "filter.Filter.Add fails on a loaded filter: "+err.Error(), art)
 				}
 			}); site != "" {
 				k.panicked(site, "filter.Filter.Add (filteradd)", art)
@@ -349,7 +373,7 @@ func (k *checker) subsets(c cfg) {
 			}
 			added := s>>uint(i)&1 == 1
 			if added && !m {
-				k.r.Violate("C39|false-negative|Matches|"+c.class(), "an element added to the filter is reported as not matching ("+it.Name+"; "+c.String()+")", art)
+				k.violate("C39|false-negative|Matches|"+c.class(), "an element added to the filter is reported as not matching ("+it.Name+"; "+c.String()+")", art)
 			}
 			if added && it.Name == "34-byte-outpoint" {
 				op, _ := ctypes.OutPointFromBytes(it.Data)
@@ -359,14 +383,14 @@ func (k *checker) subsets(c cfg) {
 					return
 				}
 				if !mo {
-					k.r.Violate("C39|false-negative|MatchesOutPoint|"+c.class(), "an outpoint added to the filter is reported as not matching", art)
+					k.violate("C39|false-negative|MatchesOutPoint|"+c.class(), "an outpoint added to the filter is reported as not matching", art)
 				}
 			}
 			if added {
 				// the reference client reading the node's bits must see its element
 				rn := &refFilter{bits: nodeBits, hashFuncs: c.HashFuncs, tweak: c.Tweak}
 				if !rn.contains(it.Data) {
-					k.r.Violate("C39|interop|node-built-filter|"+c.class(), "bits set by Filter.Add are not the BIP37 positions: an independent implementation does not find the added element ("+it.Name+")", art)
+					k.violate("C39|interop|node-built-filter|"+c.class(), "bits set by Filter.Add are not the BIP37 positions: an independent implementation does not find the added element ("+it.Name+")", art)
 				}
 			}
 			k.cases.Add(fmt.Sprintf("%s/%d/%d/%v", c.String(), s, i, added))
@@ -388,7 +412,7 @@ func (k *checker) subsets(c cfg) {
 						return
 					}
 					if !m {
-						k.r.Violate("C39|interop|client-built-filter|"+c.class(), "an element a BIP37 client put into the filter it sent is reported as not matching by the node ("+it.Name+"; "+c.String()+")", art)
+						k.violate("C39|interop|client-built-filter|"+c.class(), "an element a BIP37 client put into the filter it sent is reported as not matching by the node ("+it.Name+"; "+c.String()+")", art)
 					}
 				}
 			}
@@ -453,7 +477,7 @@ func (k *checker) transactions(c cfg, txs []interfaces.Transaction, spenders []i
 			}
 			k.cases.Add(fmt.Sprintf("%s/tx%d/%s", c.String(), ti, watched))
 			if !m1 || !m2 || !m3 {
-				k.r.Violate("C39|false-negative|MatchTxAndUpdate|watched="+strings.TrimRight(watched, "01")+"|"+c.class(), fmt.Sprintf("a transaction touching a watched item does not match (watched %s; direct=%v confirmed=%v unconfirmed=%v; %s)", watched, m1, m2, m3, c.String()), art)
+				k.violate("C39|false-negative|MatchTxAndUpdate|watched="+strings.TrimRight(watched, "01")+"|"+c.class(), fmt.Sprintf("a transaction touching a watched item does not match (watched %s; direct=%v confirmed=%v unconfirmed=%v; %s)", watched, m1, m2, m3, c.String()), art)
 				continue
 			}
 			if outIdx >= 0 && !side {
@@ -465,7 +489,7 @@ func (k *checker) transactions(c cfg, txs []interfaces.Transaction, spenders []i
 					return
 				}
 				if !mo {
-					k.r.Violate("C39|update-missing|outpoint|"+c.class(), "after matching a payment to a watched address the new outpoint does not match (the spend would be missed)", art)
+					k.violate("C39|update-missing|outpoint|"+c.class(), "after matching a payment to a watched address the new outpoint does not match (the spend would be missed)", art)
 				}
 				// the spend of that outpoint is seen by the updated filter, through both objects
 				sp := spenders[ti*2+outIdx]
@@ -476,7 +500,7 @@ func (k *checker) transactions(c cfg, txs []interfaces.Transaction, spenders []i
 					return
 				}
 				if !s1 || !s2 {
-					k.r.Violate("C39|false-negative|spend-of-updated-outpoint|"+c.class(), "the transaction spending an output paid to a watched address does not match after the update", art)
+					k.violate("C39|false-negative|spend-of-updated-outpoint|"+c.class(), "the transaction spending an output paid to a watched address does not match after the update", art)
 				}
 			}
 		}
@@ -503,7 +527,7 @@ func (k *checker) txTypes(txs []interfaces.Transaction) {
 			}
 			k.cases.Add("txtype/" + c.String())
 			if !m {
-				k.r.Violate("C39|false-negative|tx-type|"+c.class(), "a transaction whose type is listed in a side-chain filter does not match", art)
+				k.violate("C39|false-negative|tx-type|"+c.class(), "a transaction whose type is listed in a side-chain filter does not match", art)
 			}
 		}
 	}
@@ -586,6 +610,11 @@ func main() {
 		}
 		k.subsets(a.Cfg)
 		k.transactions(a.Cfg, txs, spenders)
+		k.elementSequences(a.Cfg)
+		for ti := range txs {
+			k.txSequences(a.Cfg, txs[ti], spenders[ti*2], ti)
+		}
+		k.flush()
 		os.RemoveAll(scr)
 		r.Finish(evid.Coverage{})
 	}
@@ -615,16 +644,48 @@ func main() {
 		cfgs = append(cfgs, cfg{Origin: "wire", Size: 64, HashFuncs: 7, Tweak: 12345, Flags: fl})
 	}
 
-	loadable := 0
-	for _, c := range cfgs {
-		before := k.notLoad
-		k.subsets(c)
-		if k.notLoad == before {
-			loadable++
-			k.transactions(c, txs, spenders)
-		}
+	for _, t := range append(append([]interfaces.Transaction{}, txs...), spenders...) {
+		t.Hash() // fill the hash caches before the objects are shared between goroutines
 	}
+	loadable := 0
+	workers := make([]*checker, len(cfgs))
+	par.Go(len(cfgs), func(i int) {
+		w := &checker{r: r, menu: k.menu, panics: map[string]int64{}}
+		workers[i] = w
+		c := cfgs[i]
+		w.subsets(c)
+		if w.notLoad == 0 {
+			w.transactions(c, txs, spenders)
+			if w.elementSequences(c) {
+				nTx := 1
+				if r.Thorough() {
+					nTx = len(txs)
+				}
+				for ti := 0; ti < nTx; ti++ {
+					w.txSequences(c, txs[ti], spenders[ti*2], ti)
+				}
+			}
+		}
+		w.nCases = int64(w.cases.Len())
+		w.cases = evid.Distinct{}
+	})
+	for _, w := range workers {
+		if w.notLoad == 0 {
+			loadable++
+		}
+		k.notLoad += w.notLoad
+		k.evals += w.evals
+		k.sideSkips += w.sideSkips
+		k.nCases += w.nCases // keys carry the configuration: the per-configuration sets are disjoint
+		for s, n := range w.panics {
+			k.panics[s] += n
+		}
+		k.pend = append(k.pend, w.pend...)
+	}
+	k.flush()
 	k.txTypes(txs)
+	k.flush()
+	k.nCases += int64(k.cases.Len())
 
 	var samples []interface{}
 	for _, i := range []int{0, 17, 60, 62, 66, 71, len(cfgs) - 1} {
@@ -645,8 +706,8 @@ func main() {
 	os.RemoveAll(scr)
 	r.Finish(evid.Coverage{
 		"evaluations":         k.evals + nMurmur,
-		"distinct_nontrivial": k.cases.Len(),
-		"rule":                fmt.Sprintf("%d filter configurations: bloom.NewFilter over elements {0,1,2,10,1000} x fprate {1e-9,0.01,0.5,1} x tweak {0,1,2^32-1}; filterload payload bytes with size {0,1,36000,36001} x hashFuncs {0,1,50,51} x tweak {0,1,2^32-1} and flags {0,1,2,255}, pushed through msg.FilterLoad.Deserialize and the server's filter.Filter.Load/TxFilterLoad/bloom.TxFilter.Load. Per loadable configuration: every subset of the 8-item menu [%s] added through Filter.Add and through the filteradd path, every item then queried (Matches/MatchesOutPoint), node-built bits read by the reference and reference-built bits loaded into the node; %d transfers x watched item {txid, output0, output1, spent outpoint} through MatchTxAndUpdate/MatchConfirmed/MatchUnconfirmed, then the created outpoint and the transaction spending it. MurmurHash3 against the reference for 49 inputs x 51 hash numbers x 6 tweaks plus 13 published vectors. distinct_nontrivial = distinct (configuration, subset, item) and (configuration, tx, watched) queries answered without a refusal to load", len(cfgs), strings.Join(names, ", "), len(txs)),
+		"distinct_nontrivial": k.nCases,
+		"rule":                fmt.Sprintf("%d filter configurations: bloom.NewFilter over elements {0,1,2,10,1000} x fprate {1e-9,0.01,0.5,1} x tweak {0,1,2^32-1}; filterload payload bytes with size {0,1,36000,36001} x hashFuncs {0,1,50,51} x tweak {0,1,2^32-1} and flags {0,1,2,255}, pushed through msg.FilterLoad.Deserialize and the server's filter.Filter.Load/TxFilterLoad/bloom.TxFilter.Load. Per loadable configuration: every subset of the 8-item menu [%s] added through Filter.Add and through the filteradd path, every item then queried (Matches/MatchesOutPoint), node-built bits read by the reference and reference-built bits loaded into the node; %d transfers x watched item {txid, output0, output1, spent outpoint} through MatchTxAndUpdate/MatchConfirmed/MatchUnconfirmed, then the created outpoint and the transaction spending it. Operation sequences on one filter object: every sequence up to length 4 over {query x, add x} for each item and over {query x, add x, query y, add y} for three pairs; query-all / add-subset / query-all for every subset (also after 300 other queries); every sequence up to length 4 over {watch address, watch outpoint, present parent, present spender} via MatchTxAndUpdate, MatchConfirmed and MatchUnconfirmed — whatever was added earlier in the sequence must match. MurmurHash3 against the reference for 49 inputs x 51 hash numbers x 6 tweaks plus 13 published vectors. distinct_nontrivial = distinct (configuration, subset, item) and (configuration, tx, watched) queries answered without a refusal to load", len(cfgs), strings.Join(names, ", "), len(txs)),
 		"exhaustive":          true,
 		"configurations":      len(cfgs),
 		"loadable":            loadable,
